@@ -174,13 +174,14 @@ Theorem C07_go_not_forwarded_refuted :
 Proof. exact go_not_forwarded_refuted. Qed.
 Print Assumptions C07_go_not_forwarded_refuted.
 (* ... an exit out of a cleanup is dropped; blocks are found dynamically; the two-valued result of
-   ignore-errors counts as true; a marker can become the value of a return-from; (cond (x)) yields nil. *)
+   ignore-errors counted as true until repo_fixes/C01-19 (when / cond now test the first value: w_mv is inside the guard
+   and M = S on it); a marker can become the value of a return-from; (cond (x)) yields nil. *)
 Theorem C07_other_refuted :
-  guard w_cleanup = false /\ guard w_dyn = false /\ guard w_mv = false /\ guard w_nested = false /\
+  guard w_cleanup = false /\ guard w_dyn = false /\ guard w_mv = true /\ guard w_nested = false /\
   guard w_cond_nobody = false /\
   fst (mrun 60 w_cleanup st0) = MVal (VInt 3) /\ fst (srun 60 w_cleanup st0) = Normal (VInt 2) /\
   fst (mrun 60 w_dyn st0) = MVal (VInt 3) /\ fst (srun 60 w_dyn st0) = Err CControl /\
-  fst (mrun 60 w_mv st0) = MVal (VInt 1) /\ fst (srun 60 w_mv st0) = Normal VNil /\
+  fst (mrun 60 w_mv st0) = MVal VNil /\ fst (srun 60 w_mv st0) = Normal VNil /\
   fst (mrun 60 w_nested st0) = MVal (VRetM 2%N (VInt 1)) /\ fst (srun 60 w_nested st0) = Normal (VInt 3) /\
   fst (mrun 60 w_cond_nobody st0) = MVal (VInt 5) /\ fst (srun 60 w_cond_nobody st0) = Normal (VInt 5).
 Proof. exact other_refuted. Qed.
